@@ -74,6 +74,11 @@ class C03(Check):
                 {**base, 'behaviours': {'boom2': {'kind': 'raise_exc', 'exc': 'DeserializationError', 'marker': 'MARKER-dd-zq'}},
                  'text': t([{'jsonrpc': '2.0', 'id': 1, 'method': 'boom2'}, {'jsonrpc': '2.0', 'method': 'boom2'}])},
             ]
+            # every exception type of the alphabet once, as a call and inside a batch next to a notification
+            for exc in dict.fromkeys(stdreg.EXC_NAMES):
+                beh = {'boom': {'kind': 'raise_exc', 'exc': exc, 'marker': f'MARKER-{exc}-zq'}, 'boom2': {'kind': 'raise_exc', 'exc': exc, 'marker': f'MARKER-{exc}-zq'}}
+                out.append({**base, 'behaviours': beh, 'text': t([{'jsonrpc': '2.0', 'id': 1, 'method': 'boom'}, {'jsonrpc': '2.0', 'method': 'boom2'},
+                                                                   {'jsonrpc': '2.0', 'id': 2, 'method': 'boom2'}])})
         return out
 
     def run_case(self, spec: Any) -> Outcome:
